@@ -42,6 +42,8 @@ SAMPLES = [
     'Node::balance(node): requires children bst+bal, sizes exact; ensures same view/bounds/size, and bal(res) whenever rot_ok_t(node)',
     'Node::join(l, k, v, r): requires bst(l,lo,k), bst(r,k,hi), bal(l), bal(r); ensures bst, bal, nsz == nsz(l)+nsz(r)+1, view == view(l) U view(r) U {k->v}',
     'WBTreeMap::insert(&mut self, k, v) -> r: requires wf; ensures final.wf, final@ == old@.insert(k, v), r == old@.get(k)',
+    'lemma_height_log(t): requires tb(t), bal(t); ensures 4^height(t) <= 3^height(t) * (nsz(t) + 1)   (height logarithmic in size, for all trees)',
+    'WBTreeMap::union(&self, other, merge) -> r: on a common key merge.ensures((&k, self@[k], other@[k]), r@[k])  -- operands in (left, right) order',
 ]
 
 HEADER = '''#![feature(allocator_api)]
